@@ -456,3 +456,39 @@ Proof.
   rewrite Nat.sub_0_r. cbn [app rev].
   destruct (all_blank (firstn (break_point c w) c)); cbn [rev concat]; rewrite ?app_nil_r; reflexivity.
 Qed.
+
+(* ------------------------------------------------------------------ a run of blanks wraps to nothing *)
+Lemma all_blank_split c e : all_blank c = true -> all_blank (firstn e c) = true /\ all_blank (skipn e c) = true.
+Proof.
+  intros H. rewrite <- (firstn_skipn e c) in H. unfold all_blank in *. rewrite forallb_app in H.
+  apply andb_true_iff in H. exact H.
+Qed.
+
+Lemma trim_last_blank1 c : all_blank c = true -> trim_last [c] = [].
+Proof. intros H. unfold trim_last. cbn [rev app]. rewrite H. reflexivity. Qed.
+
+(* the chunk list of a source line made of whitespace only is one blank chunk (or none): no line comes out,
+   whatever the width and however long the run is *)
+Lemma wrap_chunks_blank c w ls : all_blank c = true -> wrap_chunks [c] w = Some ls -> ls = [].
+Proof.
+  intros Hb H. unfold wrap_chunks in H.
+  apply (wrap_loop_inv w (fun cs lines => lines = [] /\ (cs = [] \/ exists c0, cs = [c0] /\ all_blank c0 = true))) in H;
+    [tauto| |split; [reflexivity|right; exists c; auto]].
+  intros cs lines Hne [Hl [Hcs|(c0 & Hcs & Hb0)]]; [congruence|]. subst lines cs. cbn [is_nil app].
+  destruct (wrap_step_spec [c0] w true) as (cur & rest & A & B & C).
+  cbn [drop_lead] in A. rewrite andb_false_r in A.
+  destruct cur as [|x cur'].
+  - cbn [app] in A. subst rest. destruct C as [C1 C2]. rewrite C2. cbn [total_len] in C1.
+    destruct (w <? length c0) eqn:L; [|apply Nat.ltb_ge in L; lia].
+    cbv zeta. cbn [fst snd app].
+    destruct (all_blank_split c0 (break_point c0 (space_left w (total_len []))) Hb0) as [F S].
+    match goal with |- context [trim_last ?x] =>
+      replace (trim_last x) with (@nil str) by (symmetry; exact (trim_last_blank1 _ F)) end.
+    cbn [line_of opt_line]. split; [reflexivity|].
+    right. eexists. split; [reflexivity|exact S].
+  - injection A as Hx Hr. symmetry in Hr. apply app_eq_nil in Hr. destruct Hr as [-> ->]. subst x.
+    rewrite C. cbn [fst snd].
+    match goal with |- context [trim_last ?x] =>
+      replace (trim_last x) with (@nil str) by (symmetry; exact (trim_last_blank1 _ Hb0)) end.
+    cbn [line_of opt_line]. auto.
+Qed.
